@@ -657,6 +657,10 @@ class Calls(Interp):
             return
         if recv is int and name == 'from_bytes' or isinstance(recv, type) and recv is int:
             pass
+        if isinstance(recv, tuple) and recv and recv[0] in ('logger', 'opaque'):
+            self.assumptions_used.add('A-LOG')
+            yield st, None
+            return
         if isinstance(recv, EmptyMap):
             if name == 'set':
                 k, v2 = args
